@@ -6,6 +6,7 @@
                            b  part of the body                       B  piece completing the body
    request kinds   get head crlf_get crlf2_get lf3_get post_cl post_chunked expect bad(Content-Length + Transfer-Encoding: rejected)
    response kinds  cl chunked eof(body until close) nobody(204) bad(Content-Length + Transfer-Encoding: rejected)
+                   cl_x (a complete response followed by surplus bytes x the proxy never asked for)
    DeliverC(k) / DeliverS(k) hand the next k pieces to the proxy as one DataReceived; the origin server's pieces for
    exchange i exist only after request i was forwarded (causality).  What the code does with a segment is computed by
      RunS  = Http1Server.read_headers / read_body / wait on Http1Connection.buf   (_http1.py)
@@ -32,6 +33,7 @@ ReqToks(k) == CASE k \in {"get", "head"} -> <<"h", "h", "H">>
                 [] k = "post_chunked" -> <<"h", "H", "b", "b", "B">>
 RespToks(k, nobody) == IF nobody \/ k = "nobody" THEN <<"h", "H">>
                        ELSE CASE k \in {"cl", "bad"} -> <<"h", "H", "b", "B">>
+                              [] k = "cl_x" -> <<"h", "H", "b", "B", "x", "x">>     \* x: bytes the server sends beyond the response
                               [] k = "chunked" -> <<"h", "H", "b", "b", "B">>
                               [] k = "eof" -> <<"h", "H", "b", "b">>
 Toks(i, roles) == [j \in 1..Len(roles) |-> [i |-> i, r |-> roles[j]]]
@@ -42,7 +44,12 @@ RespOf(s, i) == Toks(i, RespToks(s[i].resp, Nobody(s, i)))
 EofBody(s, i) == s[i].resp = "eof" /\ ~Nobody(s, i)            \* the body ends when the server closes
 
 PosOf(seq, i, r) == CHOOSE p \in 1..Len(seq) : seq[p].i = i /\ seq[p].r = r
-LastPos(seq, i) == CHOOSE p \in 1..Len(seq) : seq[p].i = i /\ \A q \in (p + 1)..Len(seq) : seq[q].i # i
+LastPos(seq, i) == CHOOSE p \in 1..Len(seq) : seq[p].i = i /\ seq[p].r # "x"
+                                             /\ \A q \in (p + 1)..Len(seq) : seq[q].i # i \/ seq[q].r = "x"
+\* Http1Client.read_headers without an outstanding request ("Unexpected data from server"): the upstream connection is
+\* closed, what the peer sends on it afterwards is never seen; the next request opens a new connection
+Unexpected(w) == [w EXCEPT !.ss = SubSeq(@, 1, w.spos), !.spp = w.spos]
+SurplusPending(w) == \E p \in (w.spos + 1)..Len(w.ss) : w.ss[p].r = "x"
 
 \* state of one run
 W0 == [cpos |-> 0, cpp |-> 0, sst |-> "rh", curi |-> 0, nflow |-> 0, cdead |-> FALSE,
@@ -82,7 +89,8 @@ RunS(s, w) ==
                                      [k |-> "answer", i |-> w.nfwd + 1, tag |-> i]>>]
 
 RunC(s, w) ==
-  IF w.sdead \/ w.wf = 0 THEN w
+  IF w.sdead THEN w
+  ELSE IF w.wf = 0 THEN (IF w.spos > w.spp THEN Unexpected(w) ELSE w)
   ELSE LET i == w.wi
            f == w.wf
            hp == PosOf(w.ss, i, "H")
@@ -105,7 +113,8 @@ RunC(s, w) ==
                                                    [k |-> "relayed", i |-> w.nrel + 1, tag |-> i, status |-> status]>>]
          IN IF EofBody(s, i)     \* read-until-EOF semantics: both connections are closed
               THEN [w1 EXCEPT !.sdead = TRUE, !.cdead = TRUE, !.sst = "done"]
-              ELSE RunS(s, [w1 EXCEPT !.sst = "rh"])      \* mark_done: if self.buf: self.state(DataReceived(b""))
+              ELSE \* mark_done on Http1Client (if self.buf: surplus bytes -> Unexpected), then on Http1Server (re-dispatch)
+                   RunS(s, [(IF w1.spos > lp THEN Unexpected(w1) ELSE w1) EXCEPT !.sst = "rh"])
 
 DelC(s, w, k) == RunS(s, [w EXCEPT !.cpos = @ + k])
 DelS(s, w, k) == RunC(s, [w EXCEPT !.spos = @ + k])
@@ -126,7 +135,14 @@ RefW(s) == Drain(s, DelC(s, W0, Len(Flat(s, 1))), 3 * Len(s) + 2)
 Init == scn = <<>> /\ st = W0 /\ ncseg = 0 /\ nsseg = 0 /\ ended = FALSE /\ mon = MonInit /\ obs = <<>>
 Live == mon.bad = <<>> /\ ~ended
 Emit(evs) == obs' = evs /\ mon' = FoldEvents(MonStep, mon, evs)
-Feat(s) == IF \E i \in 1..Len(s) : s[i].req \in {"crlf_get", "crlf2_get", "lf3_get"} THEN "blank_line" ELSE "plain"
+Feat(s) == IF \E i \in 1..Len(s) : s[i].req \in {"crlf_get", "crlf2_get", "lf3_get"} THEN "blank_line"
+           ELSE IF \E i \in 1..Len(s) : s[i].resp = "cl_x" THEN "surplus" ELSE "plain"
+\* causality for unsolicited bytes: they reach the proxy before the client's next request does (otherwise they ARE the
+\* answer to that request as far as any HTTP/1 recipient can tell)
+ClientMay(s, w, p) == LET m == Flat(s, 1)[p].i
+                      IN IF m = 1 THEN TRUE
+                         ELSE IF s[m - 1].resp # "cl_x" THEN TRUE
+                         ELSE w.nrel >= m - 1 /\ ~SurplusPending(w)
 
 Start(s) ==
   /\ Live /\ scn = <<>> /\ scn' = s /\ UNCHANGED <<st, ncseg, nsseg, ended>>
@@ -138,7 +154,8 @@ Step(w, first) == /\ st' = [w EXCEPT !.out = <<>>] /\ Emit(<<first>> \o w.out)
 DeliverC(k) ==
   /\ Live /\ scn # <<>> /\ ~st.cdead /\ k >= 1 /\ st.cpos + k <= Len(Flat(scn, 1))
   /\ ncseg < MaxCSeg /\ (ncseg = MaxCSeg - 1 => st.cpos + k = Len(Flat(scn, 1)))
-  /\ ncseg' = ncseg + 1 /\ UNCHANGED <<scn, nsseg, ended>>
+  /\ \A p \in (st.cpos + 1)..(st.cpos + k) : ClientMay(scn, st, p)
+  /\ ncseg' = ncseg + 1 /\ UNCHANGED <<scn, ended>>
   /\ LET w == DelC(scn, st, k)
      IN /\ nsseg' = IF w.nfwd > st.nfwd THEN 0 ELSE nsseg
         /\ Step(w, [k |-> "seg", c |-> "client", cut |-> Flat(scn, 1)[st.cpos + k].r])
